@@ -58,7 +58,12 @@ def coneqp_configs(I, rnd, k, default_only=False):
     if default_only:
         for e in entries[1:]:
             out.append(dict(entry=e))
+        # "only the lower triangle of P is referenced": the default path too is run with an arbitrary strict upper triangle
+        out.append(dict(entry=rnd.choice(entries), junk_upper=True, storage=rnd.choice(["dense", "sparse"])))
         return out
+    if I["p"] > 0:
+        # the reduced KKT system of 'chol' multiplies P from both sides by the QR factor of A': the one place where the upper triangle of P could leak
+        out.append(dict(entry="coneqp", kktsolver="chol", storage=rnd.choice(["dense", "sparse"]), junk_upper=True))
     off = rnd.randrange(len(kkts))
     for t in range(k):
         c = dict(entry=rnd.choice(entries), kktsolver=kkts[(off + t) % len(kkts)], storage=rnd.choice(["dense", "sparse"]),
